@@ -142,6 +142,25 @@ CHECKS = {
             "decided.",
             "custom ast structural rules (bound-provenance analysis, sibling cross-check, branch case analysis) + shared effect summaries",
             "DESIGN.md section 4 C14"),
+    "C08": (True, "other",
+            "Thin but real structural clauses of regridding: the seam padding uses only legal (guard sense, end index, relabel "
+            "sign, side) tuples with order-insensitive min()/max() guards; directions are reduced % 360, de-duplicated and sorted "
+            "before the seam neighbours are taken; frequency interpolation fills 0 outside the range and anchors zero energy at "
+            "f=0; the variance factor is hs(source)^2/hs(result)^2 with the accessor's default Hs, applied last and "
+            "unconditionally, on by default and forwarded; rotate has a single relabel-and-regrid path; order provenance.",
+            "the numeric heart of the property (identity on identical grids, non-negativity, exact Hs, whole-bin rotation equals "
+            "a circular shift) follows from properties of linear interpolation and is NOT decided.",
+            "custom ast structural rules (pairing tuples, CFG order, factor provenance) + order provenance",
+            "DESIGN.md section 4 C08"),
+    "C16": (True, "other",
+            "Structural clauses of smoothing: both windows validated (ValueError) before any data operation; legal circular "
+            "padding triples whose width is data-flow-derived from the DIRECTION window (following the leaked loop variable to "
+            "the last element of the literal it iterates); padding only under the absolute-value full-circle test; each window "
+            "on its own dimension, centred mean; grid restored by label selection, input coordinates re-attached, NaN edges "
+            "filled from the input; order provenance of the sort/pad/clip/relabel sequence.",
+            "window-mean values, min/max bounds and commutation with circular shifts are numeric and not decided.",
+            "custom ast structural rules (pairing triples, def-use of the pad width, validation dominance) + order provenance",
+            "DESIGN.md section 4 C16"),
 }
 
 NA_DEFAULT = "check under construction in this build round (see DESIGN.md section 8)"
